@@ -324,7 +324,7 @@ class FnView:
 
     ADAPT_SAME = re.compile(
         r"(core::ops::Try>::branch$|::ok_or(_else)?::<|::ok_or(_else)?$|core::result::Result(::)?<.*>::map_err|core::result::Result(::)?<.*>::map::<|"
-        r"core::option::Option(::)?<.*>::map::<|core::option::Option(::)?<.*>::ok_or|as core::convert::From<subtle::CtOption<.*>>>::from$|"
+        r"core::option::Option(::)?<.*>::map::<|core::option::Option(::)?<.*>::ok_or|as core::convert::From<subtle::CtOption<.*>>>::from$|impl core::convert::From<subtle::CtOption<.*>> for core::option::Option<.*>>::from$|"
         r"<bool as core::convert::From<subtle::Choice>>::from$|subtle::Choice::unwrap_u8$|subtle::CtOption(::)?<.*>::is_some$|"
         r"core::option::Option(::)?<.*>::is_some$|core::result::Result(::)?<.*>::is_ok$|core::result::Result(::)?<.*>::ok$|"
         r"as core::convert::Into<.*>>::into$|<subtle::Choice as core::convert::From<u8>>::from$|core::hint::black_box|"
